@@ -93,6 +93,8 @@ func runC11(c *Ctx, r *Report) {
 	r.Doc("R-C11.12", "a configured timeout is applied: on every path on which the timeout is not known to be non-positive, the work is started with a context derived by WithTimeout from the configured value")
 	r.Doc("R-C11.13", "an unbounded fetch follows every link kind of every fetched entry (adopted from C09): entries reachable only through references past an unretrievable block are still returned")
 	importRules(c, r, "C09", []string{"R-C09.3", "R-C09.4"}, "R-C11.13")
+	r.Doc("R-C11.18", "the codec objects the fetch workers share are of concurrency-safe types (adopted from C18: a decode that corrupts its neighbour drops retrievable entries or kills the process)")
+	importRules(c, r, "C18", []string{"R-C18.7"}, "R-C11.18", 0)
 	r.Doc("R-C11.17", "the task cache only grows while a fetch runs: no deletion from it and no replacement of the map outside the constructor (the gate reads 'present' as 'already requested'; a forgotten hash is requested again by every later entry that links to it)")
 	{
 		cacheF := p.Field("entry", "Fetcher", "tasksCache")
